@@ -18,7 +18,7 @@ use crate::util::*;
 pub const PROP: Prop = Prop {
     id: "C04",
     level: "exploration",
-    rule: "for each of the ~50 concrete types of the family (every Serde data-model category and the shape-ambiguous nestings: Option<Option<T>>, Option<()>, Option<Vec<T>>, Vec<Option<T>>, newtype variant around a sequence / tuple / option, empty tuple and struct variants, 1-tuples, maps keyed by integers, chars, strings and unit variants, structs with unit and option fields, enums inside maps inside structs, a recursive tree) values are drawn from hand-written strategies (boundary integers, arbitrary Unicode strings, empty and long collections, non-finite floats on the value path); oracle: from_value(to_value(x)) == x, from_str(to_string(x)) == x for finite floats (floats within the C05 tolerance, which is exact for f32), and two unequal values of one type never serialize to equal S-expressions; non-trivial = the value has a composite below the root or the type is one of the shape-ambiguous ones; distinct by digest of (type, value); counted per type in `classes`",
+    rule: "(text clause: the text also goes through serde_lexpr::to_writer and to_writer_custom into sinks that accept 1, 3 or 7 bytes per call - native write_vectored included - and into a sink that fails half way, and is read back through from_slice, from_reader on a cursor and from_reader on a one-byte-per-call reader) for each of the ~50 concrete types of the family (every Serde data-model category and the shape-ambiguous nestings: Option<Option<T>>, Option<()>, Option<Vec<T>>, Vec<Option<T>>, newtype variant around a sequence / tuple / option, empty tuple and struct variants, 1-tuples, maps keyed by integers, chars, strings and unit variants, structs with unit and option fields, enums inside maps inside structs, a recursive tree) values are drawn from hand-written strategies (boundary integers, arbitrary Unicode strings, empty and long collections, non-finite floats on the value path); oracle: from_value(to_value(x)) == x, from_str(to_string(x)) == x for finite floats (floats within the C05 tolerance, which is exact for f32), and two unequal values of one type never serialize to equal S-expressions; non-trivial = the value has a composite below the root or the type is one of the shape-ambiguous ones; distinct by digest of (type, value); counted per type in `classes`",
     assumptions: &[
         "128-bit integers are not part of the documented data model and are not in the family",
         "NaN is checked separately (bitwise is_nan), all other comparisons use the types' own PartialEq",
@@ -59,6 +59,64 @@ pub fn decode_case<T: FamType>(case: &Json) -> Option<T> {
 
 fn ambiguous_type(name: &str) -> bool {
     name.contains("Option") || name.contains("Tup") || name == "E" || name.contains("(") || name.contains("Map") || name == "unit" || name == "UnitS"
+}
+
+/// Sink that accepts at most `k` bytes per call (also through its native
+/// write_vectored) and fails hard once `fail_at` bytes have been delivered.
+struct ChunkSink {
+    buf: Vec<u8>,
+    k: usize,
+    fail_at: Option<usize>,
+}
+
+impl ChunkSink {
+    fn admit(&self, total: usize) -> std::io::Result<usize> {
+        let mut cap = self.k;
+        if let Some(off) = self.fail_at {
+            if self.buf.len() >= off {
+                return Err(std::io::Error::new(std::io::ErrorKind::Other, "injected write error"));
+            }
+            cap = cap.min(off - self.buf.len());
+        }
+        Ok(cap.min(total))
+    }
+}
+
+impl std::io::Write for ChunkSink {
+    fn write(&mut self, data: &[u8]) -> std::io::Result<usize> {
+        let n = self.admit(data.len())?;
+        self.buf.extend_from_slice(&data[..n]);
+        Ok(n)
+    }
+    fn write_vectored(&mut self, bufs: &[std::io::IoSlice<'_>]) -> std::io::Result<usize> {
+        let n = self.admit(bufs.iter().map(|b| b.len()).sum())?;
+        let mut left = n;
+        for b in bufs {
+            let k = left.min(b.len());
+            self.buf.extend_from_slice(&b[..k]);
+            left -= k;
+        }
+        Ok(n)
+    }
+    fn flush(&mut self) -> std::io::Result<()> {
+        Ok(())
+    }
+}
+
+/// Reader that delivers one byte per call.
+struct OneByte<'a>(&'a [u8]);
+
+impl<'a> std::io::Read for OneByte<'a> {
+    fn read(&mut self, out: &mut [u8]) -> std::io::Result<usize> {
+        match (self.0.split_first(), out.first_mut()) {
+            (Some((b, rest)), Some(o)) => {
+                *o = *b;
+                self.0 = rest;
+                Ok(1)
+            }
+            _ => Ok(0),
+        }
+    }
 }
 
 pub fn check_roundtrip<T: FamType>(name: &'static str, x: &T) -> CaseResult {
@@ -106,6 +164,31 @@ pub fn check_roundtrip<T: FamType>(name: &'static str, x: &T) -> CaseResult {
                 }
             }
         }
+        // the writer entry points deliver the same text through a sink that
+        // accepts only a few bytes per call, and report a failing sink
+        for k in [1usize, 3, 7] {
+            for custom in [false, true] {
+                let mut sink = ChunkSink { buf: Vec::new(), k, fail_at: None };
+                let r = if custom {
+                    serde_lexpr::to_writer_custom(&mut sink, x, lexpr::print::Options::default())
+                } else {
+                    serde_lexpr::to_writer(&mut sink, x)
+                };
+                if r.is_err() || sink.buf != text.as_bytes() {
+                    return Err(fail(
+                        "to_writer",
+                        format!("short-writes custom={}", custom),
+                        format!("through a sink accepting {} bytes per call the text {:?} arrives as {:?} (result ok={})", k, clip(&text, 120), bytes_lossy(&sink.buf), r.is_ok()),
+                    ));
+                }
+            }
+        }
+        if !text.is_empty() {
+            let mut sink = ChunkSink { buf: Vec::new(), k: 5, fail_at: Some(text.len() / 2) };
+            if serde_lexpr::to_writer(&mut sink, x).is_ok() {
+                return Err(fail("to_writer", "ok-on-error".into(), format!("to_writer returned Ok although the sink failed at offset {} of {:?}", text.len() / 2, clip(&text, 120))));
+            }
+        }
         // the other text entry points agree
         let vec_text = serde_lexpr::to_vec(x).map_err(|e| e.to_string());
         let mut w = Vec::new();
@@ -115,6 +198,10 @@ pub fn check_roundtrip<T: FamType>(name: &'static str, x: &T) -> CaseResult {
         }
         let a = serde_lexpr::from_slice::<T>(text.as_bytes()).ok();
         let b = serde_lexpr::from_reader::<T>(std::io::Cursor::new(text.as_bytes())).ok();
+        let b1 = serde_lexpr::from_reader::<T>(OneByte(text.as_bytes())).ok();
+        if b1 != b {
+            return Err(fail("from_reader", "chunked-differs".into(), "from_reader through a reader delivering one byte per call disagrees with a cursor".into()));
+        }
         let c = serde_lexpr::from_str::<T>(&text).ok();
         if a != c || b != c {
             return Err(fail("from_slice/from_reader", "differs".into(), "from_slice/from_reader disagree with from_str".into()));
@@ -217,4 +304,36 @@ fn replay_c04(_sub: &str, case: &Json) -> Option<CaseResult> {
 #[allow(dead_code)]
 fn unused(_: BS<u8>) {
     let _ = any::<u8>();
+}
+
+struct FuzzPick<'a, 'b> {
+    f: &'a mut FuzzIn<'b>,
+    idx: usize,
+    at: usize,
+    out: Option<CaseResult>,
+}
+
+impl<'a, 'b> TypeVisitor for FuzzPick<'a, 'b> {
+    fn visit<T: FamType>(&mut self, name: &'static str, strat: BS<T>) {
+        let me = self.at;
+        self.at += 1;
+        if me != self.idx {
+            return;
+        }
+        if self.f.mode % 4 == 3 {
+            if let Some((a, b)) = self.f.draw(&(strat.clone(), strat)) {
+                self.out = Some(check_injective(name, &a, &b));
+            }
+        } else if let Some(x) = self.f.draw(&strat) {
+            self.out = Some(check_roundtrip(name, &x));
+        }
+    }
+}
+
+/// libFuzzer entry: one type of the family (second byte), one generated value.
+pub fn fuzz(f: &mut FuzzIn) -> Option<CaseResult> {
+    let idx = f.draw(&(0usize..N_FAM_TYPES))?;
+    let mut p = FuzzPick { f, idx, at: 0, out: None };
+    for_each_type(&mut p);
+    p.out
 }
